@@ -29,6 +29,12 @@ def gen_history(rng, maxlen, kinds, ntext, nuri=2):
             hist.append({"k": "unknotif", "w": rng.randrange(0, 5)})
         elif k == "cresp":
             hist.append({"k": "cresp", "id": i})
+        elif k == "close":
+            hist.append({"k": "close", "u": rng.randrange(1, nuri + 1)})
+        elif k == "badreq":
+            hist.append({"k": "badreq", "id": i, "w": rng.randrange(0, 5)})
+        elif k == "badnotif":
+            hist.append({"k": "badnotif", "m": rng.randrange(0, 2), "w": rng.randrange(0, 5)})
     hist.append({"k": "shutdown", "id": n + 1})
     hist.append({"k": "exit"})
     return hist
